@@ -22,9 +22,12 @@ class Factory(object):
 
     def _name(self, name):
         # unique, deterministic names (same across re-executions of the same prefix)
-        n = self.names.get(name, 0)
-        self.names[name] = n + 1
-        return name if n == 0 else "%s~%d" % (name, n)
+        # the counter lives in the context: several factories (one per modular call) share one path
+        name = "".join(ch if (ch.isalnum() or ch in "_.") else "_" for ch in name)   # SMT-LIB simple symbols only
+        names = self.ctx.names
+        n = names.get(name, 0)
+        names[name] = n + 1
+        return name if n == 0 else "%s.%d" % (name, n)
 
     # ---- scalars
     def str(self, name, nonempty=False, maxlen=None):
@@ -125,6 +128,14 @@ class Factory(object):
     def list(self, items=(), cls="list"):
         return ListV(list(items), cls=cls)
 
+    def charlist(self, name, tail=()):
+        """list of one-character strings of arbitrary length (represented exactly by their concatenation),
+        followed by the given concrete tail."""
+        nm = self._name(name)
+        z = z3.String(nm)
+        self.ctx.leaves.append((nm, SStr(z)))
+        return ListV(list(tail), prefix=z)
+
     def symlist(self, name, tail=()):
         """list of strings of arbitrary length followed by the given concrete tail."""
         p = self.strlist(name)
@@ -143,6 +154,19 @@ class Factory(object):
         d.entries["name"] = [self.str(name + ".name"), z3.simplify(has_name)]
         d.entries["namespace"] = [self.one_of(None, lambda: self.str(name + ".namespace")), z3.simplify(is_tag) if is_tag is not False else False]
         return d, t
+
+    def charset(self, chars):
+        return regex2smt.charset_regex(chars)
+
+    def not_charset(self, chars):
+        return regex2smt.not_charset_regex(chars)
+
+    def zs(self, v):
+        return zs(v)
+
+    def abstract_trie(self):
+        from .triespec import abstract_trie
+        return abstract_trie(self)
 
     def I_module(self, name):
         return repo.get_module(name)
